@@ -89,11 +89,24 @@ CoreBig == CoreSmall \cup
       Cmd(<<97, 32>> \o Z(MX - 2), <<>>) }
 Core == IF Big THEN CoreBig ELSE CoreSmall
 
+(* the property's domain, at the level of items (see module Framing): the outcome must not
+   depend on whether a synchronising literal is refused early or late *)
+AnnLen(l) == 2 + Len(Digits(l.n)) + (IF l.sync THEN 0 ELSE 1)
+MsgSize(c) == Size(c.head) + FoldLeft(LAMBDA a, l : a + AnnLen(l) + 2 + Size(l.data) + Size(l.tail), 0, c.lits)
+InDomain(c) ==
+    LET over == {j \in 1..Len(c.lits) : c.lits[j].n > MX} IN
+    IF over = {}
+    THEN MsgSize(c) > MX => \A j \in 1..Len(c.lits) : ~c.lits[j].sync
+    ELSE LET j == SetMin(over) IN
+         IF c.lits[j].sync THEN c.lits[j].ab /\ j = Len(c.lits)
+         ELSE \A i \in (j + 1)..Len(c.lits) : ~c.lits[i].sync
+Dom(S) == {c \in S : InDomain(c)}
+
 ImapItems ==
-    (IF Wide THEN {<<c>> : c \in One \cup Two} ELSE {})
-    \cup {<<c>> : c \in Special}
-    \cup (IF Depth >= 2 THEN {<<a, b>> : a \in Core, b \in Core} ELSE {})
-    \cup (IF Depth >= 3 THEN {<<a, b, c>> : a \in Core, b \in Core, c \in Core} ELSE {})
+    (IF Wide THEN {<<c>> : c \in Dom(One \cup Two)} ELSE {})
+    \cup {<<c>> : c \in Dom(Special)}
+    \cup (IF Depth >= 2 THEN {<<a, b>> : a \in Dom(Core), b \in Dom(Core)} ELSE {})
+    \cup (IF Depth >= 3 THEN {<<a, b, c>> : a \in Dom(Core), b \in Dom(Core), c \in Dom(Core)} ELSE {})
 
 (* ---- rendering and denotation of items -------------------------------- *)
 Ann(l) == <<LBR>> \o Digits(l.n) \o (IF l.sync THEN <<>> ELSE <<PLUS>>) \o <<RBR>>
@@ -130,7 +143,7 @@ DenPop(ls) == [ev |-> [i \in 1..Len(ls) |-> IF ls[i] = <<>> THEN Ev("b", <<>>, i
                cls |-> [i \in 1..Len(ls) |-> IF ls[i] = <<>> THEN "empty" ELSE "plain"]]
 
 (* ---- pseudo-random streams beyond the bounds ---------------------------- *)
-Pool == One \cup Two \cup Special
+Pool == Dom(One \cup Two \cup Special)
 RandItems == {[j \in 1..RandLen |-> RandomElement(Pool)] : i \in 1..Rand}
 
 (* ---- response streams (user process -> client) -------------------------- *)
